@@ -251,6 +251,20 @@ M["a03-getsessions-shallow-again"] = ("GetSessions returns shallow copies of the
 		result[id] = s""", """		result[id] = *session""")],
     [(IRC + ":IRCServer.GetSessions", "Session.Channels", "R"), (IRC + ":IRCServer.GetSessions", "Session.invitedTo", "R")])
 
+M["a05-getsessions-copies-only-one-map-on-a-branch"] = ("GetSessions deep-copies invitedTo only when the session is logged in", [
+    (IRC, """		s.invitedTo = make(map[lcChan]bool, len(session.invitedTo))
+		for channel, invited := range session.invitedTo {
+			s.invitedTo[channel] = invited
+		}
+		result[id] = s""", """		if session.loggedIn {
+			s.invitedTo = make(map[lcChan]bool, len(session.invitedTo))
+			for channel, invited := range session.invitedTo {
+				s.invitedTo[channel] = invited
+			}
+		}
+		result[id] = s""")],
+    [(IRC + ":IRCServer.GetSessions", "Session.invitedTo", "R")])
+
 M["a04-banned-map-handed-out"] = ("a new exported getter returns the live Banned map read under ConfigMu.RLock", [
     (IRC, """func (i *IRCServer) Banned(remoteAddr string) string {""", """// BannedAddresses returns the GLINEd addresses.
 func (i *IRCServer) BannedAddresses() map[string]string {
